@@ -184,6 +184,10 @@ var (
 		{"  * " + strings.Repeat("A very long line. ", 250) + "end"},                                      // > 4096 bytes: longer than bufio's buffer
 		{"  * Größe, naïve café, e\u0301 (decomposed), Ω ≠ Ω, 日本語 ✓", "  * «quoted» — dash"},              // non-ASCII; NFC != NFD
 		{"  -- two blanks, then dashes: not a trailer", "  * -- ", "  --"},                                // near-trailers
+		firstCharLines("  "),   // lines whose first non-blank character is # - * + . : ; [ ( < or a digit, indented by 2
+		firstCharLines("    "), // ... by 4 (wrapped continuation lines, e.g. "    #1012345).")
+		firstCharLines(" \t"),  // ... by a blank and a tab
+		{"  * Odd lines follow:", "  ---", "  ***", "  ###", "  ...", "  ;;;", " ", "   ", "  hello (1.0) unstable; urgency=low", "  -- Not A. Trailer <x@example.org>  Sun, 22 Mar 2015 11:56:00 +0100", "  * end."}, // punctuation only, blanks only, header-like, trailer-like
 	}
 	altMaint = []string{
 		"Jane Doe <jane@example.org>",
@@ -203,6 +207,16 @@ var (
 		{1999, 7, 4, 4, 5, 6, -210},      // -0330
 	}
 )
+
+// firstCharLines: a change item wrapped so that the continuation lines begin (after the indentation) with each of
+// the characters a line-oriented reader might give a meaning to.
+func firstCharLines(indent string) []string {
+	out := []string{"  * Fix build (Closes:"}
+	for _, c := range []string{"#", "-", "*", "+", ".", ":", ";", "[", "(", "<", "7"} {
+		out = append(out, indent+c+"1012345"+c+" and more)"+c)
+	}
+	return out
+}
 
 // altVersion: alternative a of the version of entry i out of n (revisions descend like in a real changelog, so
 // that the default entries of one changelog differ from each other).
@@ -246,6 +260,6 @@ func fixedDocs() []Doc {
 		mkDoc([]Pick{{Body: 4, Date: 3, Maint: 2}, {Source: 1, Body: 5, Opts: 2, OptSep: 1}, {Body: 6, Version: 2, Date: 4}}, 1, []int{2, 1}, 2),
 		mkDoc([]Pick{{Date: 5, Body: 7}, {Date: 6, Dists: 2, Body: 8, Maint: 4}, {Maint: 5, Body: 9, Version: 3}}, 0, []int{1, 3}, 0),
 		mkDoc([]Pick{{Body: 11, After: 1, Opts: 3}, {Before: 1, Version: 1, Body: 12, Dists: 3}}, 2, []int{1}, 1),
-		mkDoc([]Pick{{Body: 2, Opts: 1, Dists: 1}, {Body: 0, Source: 2, Date: 1}, {Body: 1, Maint: 3, Date: 3}}, 0, []int{1, 1}, 0),
+		mkDoc([]Pick{{Body: 14, Opts: 1, Dists: 1}, {Body: 16, Source: 2, Date: 1}, {Body: 1, Maint: 3, Date: 3}}, 0, []int{1, 1}, 0),
 	}
 }
